@@ -26,14 +26,19 @@ def recv(f):
 
 
 class Child(object):
-    def __init__(self, hashseed):
-        env = dict(os.environ, PYTHONHASHSEED=str(hashseed))
+    def __init__(self, hashseed, preimport=False):
+        """preimport: the child imports every module of the playback package before doing anything (a process that
+        also uses the other cassettes, the studio, the file interception ...), else only what recording needs."""
+        env = dict(os.environ, PYTHONHASHSEED=str(hashseed), PBT_CHILD_PREIMPORT='1' if preimport else '')
         self.hashseed = str(hashseed)
+        self.preimport = bool(preimport)
         self.p = subprocess.Popen([sys.executable, '-m', 'pbt.hashseed_child'], stdin=subprocess.PIPE,
                                   stdout=subprocess.PIPE, env=env, cwd=VERIF)
         hello = recv(self.p.stdout)
         if hello.get('hashseed') != self.hashseed:
             raise RuntimeError('child started with hash seed %r, wanted %r' % (hello, self.hashseed))
+        if self.preimport and not hello.get('preimported'):
+            raise RuntimeError('child could not import the playback modules: %r' % (hello,))
 
     def call(self, msg):
         send(self.p.stdin, msg)
